@@ -2,7 +2,7 @@
    `run true` is the access order of the code after the fix: commits (tied to the code by the
    controlled-scheduler correspondence check); `run false` is the order of the pinned tree. *)
 From ZV.Common Require Import Base.
-From ZV.C16 Require Import Model ModelSeq ProofsBase ProofsInv ProofsStep ProofsMain ProofsRefute ProofsSeq ProofsSolo.
+From ZV.C16 Require Import Model ModelSeq ModelLazy ProofsBase ProofsInv ProofsStep ProofsMain ProofsRefute ProofsSeq ProofsSolo ProofsLazy.
 Open Scope N_scope.
 
 (* (i) one-writer-many-readers: for any number of threads, any programs, any schedule, at most one
@@ -243,3 +243,89 @@ Example seq_nontrivial :
   Forall wf_sop cross_hist /\ handed_writers (srun_ops true cross_hist sinit) 1 = 1
   /\ Forall wf_sop dangling_cache_hist.
 Proof. vm_compute. repeat split; repeat constructor; discriminate. Qed.
+
+(* ---- the lazy free list: bulk processing rule, age order, every interleaving (ModelLazy.v, ProofsLazy.v) ---- *)
+(* LazyFreeList::process_safe_items with any bulk threshold (the loop as written): what it frees is a prefix of the
+   queue (oldest first, nothing lost), every freed age is below min_version, at most max(1, threshold) items per call,
+   it stops only at the end of the queue, at an item that may still be seen, or at the limit, and it frees at least one
+   item when the oldest one is safe (so repeated calls drain the queue) *)
+Theorem process_safe_items_spec :
+  forall thr m l,
+    let freed := fst (process_safe thr m l) in
+    let rest := snd (process_safe thr m l) in
+    freed ++ rest = l /\
+    (forall a, In a freed -> a < m) /\
+    nlen freed <= N.max 1 thr /\
+    (rest = [] \/ (exists b r, rest = b :: r /\ m <= b) \/ (freed <> [] /\ thr <= nlen freed)) /\
+    (forall a r, l = a :: r -> a < m -> freed <> []).
+Proof. exact process_safe_items_spec_proof. Qed.
+Check process_safe_items_spec :
+  forall thr m l,
+    let freed := fst (process_safe thr m l) in
+    let rest := snd (process_safe thr m l) in
+    freed ++ rest = l /\
+    (forall a, In a freed -> a < m) /\
+    nlen freed <= N.max 1 thr /\
+    (rest = [] \/ (exists b r, rest = b :: r /\ m <= b) \/ (freed <> [] /\ thr <= nlen freed)) /\
+    (forall a r, l = a :: r -> a < m -> freed <> []).
+Print Assumptions process_safe_items_spec.
+
+(* in every reachable state (either access order, any threshold) the queue is in age order and no item is newer than
+   current_version: `break` at the first item that cannot be freed loses nothing *)
+Theorem queue_in_age_order :
+  forall fx level b progs sched,
+    let st := run fx sched (initb level b progs) in
+    sorted_le (lazy (sh st)) /\ Forall (fun a => a <= cur (sh st)) (lazy (sh st)).
+Proof. exact queue_in_age_order_proof. Qed.
+Check queue_in_age_order :
+  forall fx level b progs sched,
+    let st := run fx sched (initb level b progs) in
+    sorted_le (lazy (sh st)) /\ Forall (fun a => a <= cur (sh st)) (lazy (sh st)).
+Print Assumptions queue_in_age_order.
+
+(* (ii) for every bulk threshold: whatever process_safe_items(min_version) would free in a reachable state was retired
+   strictly before the version of every live token *)
+Theorem bulk_reclaim_safe :
+  forall level b progs sched a t,
+    let st := run true sched (initb level b progs) in
+    In a (fst (process_safe (bulk (sh st)) (minv (sh st)) (lazy (sh st)))) ->
+    In t (live st) -> tracked t -> a < tv t.
+Proof. exact bulk_reclaim_safe_proof. Qed.
+Check bulk_reclaim_safe :
+  forall level b progs sched a t,
+    let st := run true sched (initb level b progs) in
+    In a (fst (process_safe (bulk (sh st)) (minv (sh st)) (lazy (sh st)))) ->
+    In t (live st) -> tracked t -> a < tv t.
+Print Assumptions bulk_reclaim_safe.
+
+(* (ii) every interleaving of retire / acquire / release / with_*_token / hand-over / (gated) bulk processing: an item
+   that leaves the queue in a step of any thread is older than every token that is live when the step is taken ... *)
+Theorem handed_back_safe :
+  forall level b progs sched tid a t,
+    let st := run true sched (initb level b progs) in
+    In a (handed_back (sh st) (sh (step true st tid))) ->
+    In t (live st) -> tracked t -> a < tv t.
+Proof. exact handed_back_safe_proof. Qed.
+Check handed_back_safe :
+  forall level b progs sched tid a t,
+    let st := run true sched (initb level b progs) in
+    In a (handed_back (sh st) (sh (step true st tid))) ->
+    In t (live st) -> tracked t -> a < tv t.
+Print Assumptions handed_back_safe.
+
+(* ... and than every token that is live after it *)
+Theorem handed_back_safe_after :
+  forall level b progs sched tid a t,
+    let st := run true sched (initb level b progs) in
+    let st' := step true st tid in
+    In a (handed_back (sh st) (sh st')) ->
+    In t (live st') -> tracked t -> a < tv t.
+Proof. exact handed_back_safe_after_proof. Qed.
+Check handed_back_safe_after :
+  forall level b progs sched tid a t,
+    let st := run true sched (initb level b progs) in
+    let st' := step true st tid in
+    In a (handed_back (sh st) (sh st')) ->
+    In t (live st') -> tracked t -> a < tv t.
+Print Assumptions handed_back_safe_after.
+
